@@ -1,6 +1,7 @@
 package main
 
 import (
+	"go/types"
 	"go/token"
 	"strconv"
 	"strings"
@@ -340,6 +341,48 @@ func runC19(c *Ctx) {
 	}
 	c.Check(len(supported) == 3, "C19.W6-accept-header", "rwriter › supported media types", token.NoPos, "writer's media type constants resolved", "cannot resolve the writer's media type constants")
 	c.Floor("C19.W6-accept-header", 6)
+	// the writer accepts a request only for a media type it can write: every way to a successful negotiation carries
+	// "a supported media type was found" or "there was no Accept header at all" (the forgiving JSON fallback is for the
+	// latter only — a request that lists only unsupported types gets an error, not a JSON body it did not ask for)
+	{
+		var negFn *ssa.Function
+		for _, f := range c.Funcs("rwriter") {
+			instrs(f.SSA, func(in ssa.Instruction) {
+				if ci, ok := in.(*ssa.Call); ok {
+					x := c.CallX(ci)
+					if nameMatches(x.Name, "fmt.Errorf") && len(x.Args) > 0 && strings.Contains(x.Args[0].Name, "media type not supported") {
+						negFn = f.SSA
+					}
+				}
+			})
+		}
+		if negFn == nil {
+			c.Unk("C19.W6-accept-header", "rwriter › unsupported media type rejected", token.NoPos, "no 'media type not supported' error found in the writer")
+		} else {
+			boolPhi := func(x *X, _ Binds) bool {
+				x = strip(x)
+				if x == nil || x.Op != "phi" || x.V == nil {
+					return false
+				}
+				b, ok := x.V.Type().Underlying().(*types.Basic)
+				return ok && b.Kind() == types.Bool
+			}
+			alts := []Alt{{Bin("==", Op("builtin", "len", Any()), Const("0")), true}, {boolPhi, true}}
+			okAll, n := true, 0
+			for _, b := range negFn.Blocks {
+				ret, ok := b.Instrs[len(b.Instrs)-1].(*ssa.Return)
+				if !ok || len(ret.Results) == 0 || c.RetX(ret, len(ret.Results)-1).Op != "nil" {
+					continue
+				}
+				n++
+				if !c.PathsCarryDAG(b, alts) {
+					okAll = false
+				}
+			}
+			c.Check(okAll && n > 0, "C19.W6-accept-header", c.short(negFn.String())+" › unsupported media types rejected", negFn.Pos(), "success only with a supported media type found, or with no Accept header at all", "the negotiation can succeed for a request whose Accept header lists only unsupported media types (e.g. through the JSON-preference fallback): the client is sent a body of a type it did not ask for instead of an error")
+		}
+	}
+	c.Floor("C19.W6-accept-header", 7)
 
 	// ---- W7 API error across the wire ------------------------------------------------------------------------
 	ee, de := c.Func("apierror", "EncodeError"), c.Func("apierror", "DecodeError")
